@@ -25,7 +25,7 @@ import (
 // memory from the garbage collector is safe.
 
 type roRegion struct {
-	mem  []byte
+	mem   []byte
 	used  int
 	ro    bool
 	plain bool
